@@ -1,4 +1,134 @@
-import PgsVerif.Model.Closure
+import PgsVerif.Proofs.Dfs
+/-!
+# C05 — bidirectional dependency sets are full transitive closures in any call order
+
+`closure` is the visited-set traversal of `getDependents` / `getDependencies` (and the enum
+variant); `query` adds the per-entity caches.  For **every** finite edge relation (no validity
+needed) and **every** history of accessor calls.
+-/
 namespace Pgs.AST
-theorem placeholder_C05 : True := trivial
+
+/-- the caches only ever hold complete closures -/
+def CachesOK (edges eedges : List (Ref × Ref)) (c : Caches) : Prop :=
+  ∀ r k s, c.get r k = some s → s = closure edges eedges r k
+
+theorem cachesOK_empty (edges eedges : List (Ref × Ref)) : CachesOK edges eedges Caches.empty := by
+  intro r k s h; cases k <;> simp [Caches.get, Caches.empty] at h
+
+theorem get_put (c : Caches) (r r' : Ref) (k k' : QKind) (s : List Ref) :
+    (c.put r k s).get r' k' = if r = r' ∧ k = k' then some s else c.get r' k' := by
+  by_cases h : r = r'
+  · subst h; cases k <;> cases k' <;> simp [Caches.put, Caches.get, List.find?_cons]
+  · have hb : (r == r') = false := by simpa using h
+    cases k <;> cases k' <;> simp [Caches.put, Caches.get, List.find?_cons, hb, h]
+
+/-- one call: the answer does not depend on the cache state, and the invariant is kept -/
+theorem query_spec (edges eedges : List (Ref × Ref)) (c : Caches) (h : CachesOK edges eedges c) (r : Ref) (k : QKind) :
+    (query edges eedges c r k).2 = present r k (closure edges eedges r k) ∧
+    CachesOK edges eedges (query edges eedges c r k).1 := by
+  unfold query
+  cases hg : c.get r k with
+  | some s => refine ⟨?_, h⟩; simp only; rw [h r k s hg]
+  | none =>
+    refine ⟨by simp only, ?_⟩
+    simp only
+    intro r' k' s' hs
+    rw [get_put] at hs
+    by_cases he : r = r' ∧ k = k'
+    · obtain ⟨rfl, rfl⟩ := he
+      simp only [and_self, if_true, Option.some.injEq] at hs
+      exact hs.symm
+    · simp only [he, if_false] at hs
+      exact h r' k' s' hs
+
+/-- **Order independence**: whatever was asked before (and however often), every answer is the
+    answer a freshly built AST gives. -/
+theorem C05_order_independent (edges eedges : List (Ref × Ref)) (qs : List (Ref × QKind)) :
+    ∀ c, CachesOK edges eedges c →
+      runQueries edges eedges c qs = qs.map fun (r, k) => sortRefs (present r k (closure edges eedges r k)) := by
+  induction qs with
+  | nil => intro c _; rfl
+  | cons q qs ih =>
+    intro c hc
+    obtain ⟨r, k⟩ := q
+    obtain ⟨h1, h2⟩ := query_spec edges eedges c hc r k
+    simp only [runQueries, List.map_cons]
+    rw [h1, ih _ h2]
+
+/-! ### the closure is exactly reachability -/
+
+theorem succs_mem (edges : List (Ref × Ref)) (m y : Ref) : y ∈ succs edges m ↔ (m, y) ∈ edges := by
+  simp only [succs, List.mem_map, List.mem_filter, beq_iff_eq]
+  constructor
+  · rintro ⟨⟨a, b⟩, ⟨h1, h2⟩, rfl⟩; simp only at h2; subst h2; exact h1
+  · intro h; exact ⟨(m, y), ⟨h, rfl⟩, rfl⟩
+
+theorem preds_mem (edges : List (Ref × Ref)) (m y : Ref) : y ∈ preds edges m ↔ (y, m) ∈ edges := by
+  simp only [preds, List.mem_map, List.mem_filter, beq_iff_eq]
+  constructor
+  · rintro ⟨⟨a, b⟩, ⟨h1, h2⟩, rfl⟩; simp only at h2; subst h2; exact h1
+  · intro h; exact ⟨(y, m), ⟨h, rfl⟩, rfl⟩
+
+/-- a message's dependencies are exactly all other messages reachable through chains of
+    message-typed fields -/
+theorem C05_dependencies (edges eedges : List (Ref × Ref)) (m x : Ref) :
+    x ∈ present m .dependencies (closure edges eedges m .dependencies) ↔ Reach (succs edges) m x ∧ x ≠ m := by
+  have hU : ∀ a ∈ m :: edges.map (·.2), ∀ y ∈ succs edges a, y ∈ m :: edges.map (·.2) := by
+    intro a _ y hy
+    exact List.mem_cons_of_mem _ (List.mem_map.mpr ⟨(a, y), (succs_mem edges a y).mp hy, rfl⟩)
+  have := dfs_exact (succs edges) (m :: edges.map (·.2)) hU m (List.mem_cons_self ..) (fuelFor edges eedges)
+    (by simp [fuelFor]; omega) x
+  simp only [present, closure, List.mem_filter, bne_iff_ne, ne_eq, this]
+
+/-- its dependents exactly all other messages from which it is reachable -/
+theorem C05_dependents (edges eedges : List (Ref × Ref)) (m x : Ref) :
+    x ∈ present m .dependents (closure edges eedges m .dependents) ↔ Reach (preds edges) m x ∧ x ≠ m := by
+  have hU : ∀ a ∈ m :: edges.map (·.1), ∀ y ∈ preds edges a, y ∈ m :: edges.map (·.1) := by
+    intro a _ y hy
+    exact List.mem_cons_of_mem _ (List.mem_map.mpr ⟨(y, a), (preds_mem edges a y).mp hy, rfl⟩)
+  have := dfs_exact (preds edges) (m :: edges.map (·.1)) hU m (List.mem_cons_self ..) (fuelFor edges eedges)
+    (by simp [fuelFor]; omega) x
+  simp only [present, closure, List.mem_filter, bne_iff_ne, ne_eq, this]
+
+/-- an enum's dependents: the messages that use it in a field plus all of their dependents -/
+theorem C05_enum_dependents (edges eedges : List (Ref × Ref)) (e x : Ref) :
+    x ∈ present e .enumDependents (closure edges eedges e .enumDependents) ↔ Reach (enumAdj edges eedges e) e x := by
+  have hU : ∀ a ∈ e :: (eedges.map (·.1) ++ edges.map (·.1)), ∀ y ∈ enumAdj edges eedges e a,
+      y ∈ e :: (eedges.map (·.1) ++ edges.map (·.1)) := by
+    intro a _ y hy
+    apply List.mem_cons_of_mem
+    unfold enumAdj at hy
+    split at hy
+    · exact List.mem_append_left _ (List.mem_map.mpr ⟨(y, e), (preds_mem eedges e y).mp hy, rfl⟩)
+    · exact List.mem_append_right _ (List.mem_map.mpr ⟨(y, a), (preds_mem edges a y).mp hy, rfl⟩)
+  have := dfs_exact (enumAdj edges eedges e) (e :: (eedges.map (·.1) ++ edges.map (·.1))) hU e (List.mem_cons_self ..)
+    (fuelFor edges eedges) (by simp [fuelFor]; omega) x
+  simp only [present, closure, this]
+
+/-- reachability over `preds` is reachability over `succs` backwards: "dependents of m" are the
+    messages from which m is reachable -/
+theorem reach_cons {α} (adj : α → List α) {a b c : α} (h1 : b ∈ adj a) (h2 : Reach adj b c) : Reach adj a c := by
+  induction h2 with
+  | single hb => exact Reach.tail (Reach.single h1) hb
+  | tail _ hc ih => exact Reach.tail ih hc
+
+theorem reach_preds_iff (edges : List (Ref × Ref)) (m x : Ref) : Reach (preds edges) m x ↔ Reach (succs edges) x m := by
+  constructor
+  · intro h
+    induction h with
+    | single hb => exact Reach.single ((succs_mem edges _ _).mpr ((preds_mem edges _ _).mp hb))
+    | tail _ hc ih => exact reach_cons _ ((succs_mem edges _ _).mpr ((preds_mem edges _ _).mp hc)) ih
+  · intro h
+    induction h with
+    | single hb => exact Reach.single ((preds_mem edges _ _).mpr ((succs_mem edges _ _).mp hb))
+    | tail _ hc ih => exact reach_cons _ ((preds_mem edges _ _).mpr ((succs_mem edges _ _).mp hc)) ih
+
+/-! ### non-vacuity: A ↔ B, D → A (the shape that broke the memoised version) -/
+private def A : Ref := ⟨0, [4, 0]⟩
+private def B : Ref := ⟨0, [4, 1]⟩
+private def D : Ref := ⟨0, [4, 2]⟩
+private def demoEdges : List (Ref × Ref) := [(A, B), (B, A), (D, A)]
+example : present A .dependents (closure demoEdges [] A .dependents) = [D, B] := by decide
+example : present B .dependents (closure demoEdges [] B .dependents) = [D, A] := by decide
+
 end Pgs.AST
